@@ -897,6 +897,7 @@ func (t *fnTrans) ret(in *ssa.Return) {
 	}
 	t.cover("return")
 	env := t.entryEnv(t.cur)
+	env.final = t.localEnv(t.cur, t.blk).local
 	sig := t.fn.Signature
 	for i, r := range in.Results {
 		v := Val{T: t.term(t.val(r))}
